@@ -1,6 +1,7 @@
 package checks
 
 import (
+	"bytes"
 	"context"
 	"crypto"
 	_ "crypto/sha256"
@@ -339,6 +340,45 @@ func runC11(c *core.Ctx) {
 			if refScoreV1(msg) < target {
 				c.Violate("C11/reuse/score-below-target", fmt.Sprintf("call %d on a Worker with %d goroutines returned nonce %d, whose score %v is below this call's target %v (earlier calls on the same Worker used other data and lower targets)", round, workers, nonce, refScoreV1(msg), target), cas, "", nil)
 				break
+			}
+		}
+	}
+	// the caller builds every message in the SAME buffer (same backing array and length, other content), on one Worker and
+	// on a new Worker per call
+	for _, mode := range []string{"one Worker", "a new Worker per call"} {
+		for _, workers := range []int{1, 3} {
+			w := pow.New(workers)
+			store := bytes.Repeat([]byte{0xEE}, 64)
+			buf := store[5:16]
+			target := math.Pow(3, 6)/float64(len(buf)+8) - 1e-9
+			for round, fill := range []byte{1, 2, 1, 3, 3, 0, 1} {
+				for i := range buf {
+					buf[i] = fill*17 + byte(i)*fill
+				}
+				want := append([]byte{}, store...)
+				if mode != "one Worker" {
+					w = pow.New(workers)
+				}
+				var nonce uint64
+				var err error
+				p := core.Catch(func() { nonce, err = w.Mine(context.Background(), buf, target) })
+				c.Eval(1)
+				nontriv.Add(1)
+				cas := map[string]interface{}{"mode": mode, "workers": workers, "call": round, "data": fmt.Sprintf("%x", buf), "target": target}
+				if p != nil || err != nil {
+					c.Violate("C11/same-buffer/error", fmt.Sprintf("call %d: %v %v", round, p, err), cas, "", nil)
+					break
+				}
+				if !bytes.Equal(store, want) {
+					c.Violate("C11/same-buffer/data-modified", fmt.Sprintf("call %d: Mine wrote to the caller's buffer", round), cas, "", nil)
+					break
+				}
+				msg := append(append([]byte{}, buf...), make([]byte, 8)...)
+				binary.LittleEndian.PutUint64(msg[len(buf):], nonce)
+				if refScoreV1(msg) < target {
+					c.Violate("C11/same-buffer/score-below-target", fmt.Sprintf("%s, %d goroutines, call %d: the message was built in the buffer of the previous call (content %x); Mine returned nonce %d with score %v < target %v", mode, workers, round, buf, nonce, refScoreV1(msg), target), cas, "", nil)
+					break
+				}
 			}
 		}
 	}
